@@ -47,6 +47,7 @@ def parsePat : Sexp → Pat
   | .atom "resUnavailable" => .resUnavailable
   | .atom "intervalExceeded" => .intervalExceeded
   | .atom "scopeClosed" => .scopeClosed
+  | .atom "cancelTask" => .cancelTask
   | _ => .anyException
 
 partial def parsePyInstr (tp : TimeParser τ) : Sexp → PyInstr τ
